@@ -79,6 +79,12 @@ type Env struct {
 	Ambiguous  []string
 	MapQuant   int // quantifiers that iterated a map with >= 2 entries
 	OrderDep   int // map quantifiers whose outcome depends on visiting order
+
+	// alsoError counts resolutions whose success the documentation does not promise (an
+	// index or non-string key in a non-canonical spelling such as "01", "0x1", ""; a `-`-tagged
+	// field standing in for the unknown value): the outcome computed from them is admitted
+	// together with an error.
+	alsoError int
 }
 
 type binding struct {
@@ -153,6 +159,10 @@ func (e *Env) step(cur *uni.Node, part string) (*uni.Node, status) {
 		}
 		for i, k := range cur.Keys {
 			if match(k) {
+				if kk := cur.T.Key.K; kk != uni.KString && kk != uni.KIface && !canonicalKey(k, part) {
+					e.alsoError++
+					e.ambiguous("non-canonical key spelling")
+				}
 				return cur.Elems[i], found
 			}
 		}
@@ -168,6 +178,12 @@ func (e *Env) step(cur *uni.Node, part string) (*uni.Node, status) {
 		}
 		if idx < 0 || idx >= int64(len(cur.Elems)) {
 			return nil, failed
+		}
+		if strconv.FormatInt(idx, 10) != part {
+			// only canonical decimal indexes are documented; the weak spellings the selector
+			// library also reads are admitted either way
+			e.alsoError++
+			e.ambiguous("non-canonical index spelling")
 		}
 		return cur.Elems[idx], found
 	case uni.KStruct:
@@ -206,11 +222,30 @@ func (e *Env) step(cur *uni.Node, part string) (*uni.Node, status) {
 			return nil, notFound
 		}
 		if ignored {
+			if e.Unknown != nil {
+				// a field hidden by "-": "an error, or the configured unknown value" - both admitted
+				e.alsoError++
+				e.ambiguous("hidden field with unknown value configured")
+				return nil, notFound
+			}
 			return nil, failed
 		}
 		return cur.Elems[foundIdx], found
 	}
 	return nil, failed
+}
+
+// canonicalKey reports whether part is the canonical spelling of the non-string key k.
+func canonicalKey(k *uni.Node, part string) bool {
+	switch kk := k.T.K; {
+	case kk.IsSigned():
+		return strconv.FormatInt(k.I, 10) == part
+	case kk.IsUnsigned():
+		return strconv.FormatUint(k.U, 10) == part
+	case kk == uni.KBool:
+		return strconv.FormatBool(k.B) == part
+	}
+	return true
 }
 
 // keyMatcher coerces a path part to the map's key type (the weak decoding the
@@ -468,6 +503,15 @@ func derefAll(n *uni.Node) *uni.Node {
 }
 
 func (e *Env) evalMatch(m *bx.Match) Set {
+	before := e.alsoError
+	s := e.evalMatch1(m)
+	if e.alsoError > before {
+		s |= E
+	}
+	return s
+}
+
+func (e *Env) evalMatch1(m *bx.Match) Set {
 	r := e.resolve(m.Sel.Parts)
 	switch r.st {
 	case failed:
@@ -717,6 +761,15 @@ func (e *Env) Eval(x bx.Expr) Set {
 }
 
 func (e *Env) evalQuant(q *bx.Quant) Set {
+	before := e.alsoError
+	s := e.evalQuant1(q)
+	if e.alsoError > before {
+		s |= E
+	}
+	return s
+}
+
+func (e *Env) evalQuant1(q *bx.Quant) Set {
 	r := e.resolve(q.Sel.Parts)
 	empty := F
 	if q.All {
